@@ -22,6 +22,25 @@ def pair_specs(rng, nlev=None, kinds=None):
     q["fields"] = rng.sample(Q_FIELDS, rng.choice([1, 2, 3, 4, 4, 5]))
     q["data"] = {"mode": "bits", "seed": rng.randrange(1 << 30)}
     kp, kq = kinds or (rng.choice(["mono", "perm", "files", "scatter"]), rng.choice(["mono", "perm", "files", "scatter", "same"]))
+    if kp == "mixed":
+        # the levels differ in kind: the coarsest has one file map for both inputs with the boxes out of header order in
+        # it, the finer ones spread their boxes over files independently in the two inputs
+        for _ in range(50):
+            if len(p["levels"]) >= 2 and len(p["levels"][0]) >= 2 and len(p["levels"][1]) >= 2:
+                break
+            p = plotgen.random_spec(rng, ndims=3, nlev=rng.choice([2, 3]), nf=len(p["fields"]), data="bits", B=2)
+            p["fields"] = P_FIELDS[: len(p["fields"])]
+            q = copy.deepcopy(p)
+            q["fields"] = rng.sample(Q_FIELDS, rng.choice([1, 2, 3, 4]))
+            q["data"] = {"mode": "bits", "seed": rng.randrange(1 << 30)}
+        lp = plotgen.random_layout(rng, p["levels"], "files"); lq = plotgen.random_layout(rng, q["levels"], "scatter")
+        l0 = plotgen.random_layout(rng, p["levels"][:1], "perm")[0]
+        if l0 == sorted(l0):
+            l0 = l0[::-1]
+        p["layout"] = [l0] + lp[1:]
+        q["layout"] = [copy.deepcopy(l0) if kq == "mixed" else [[f, -k] for f, k in l0]] + lq[1:]
+        q["header_style"] = rng.choice(["amrex", "tight"])
+        return p, q, (kp, kq)
     p["layout"] = plotgen.random_layout(rng, p["levels"], kp)
     if kq == "same":
         q["layout"] = copy.deepcopy(p["layout"])
@@ -238,12 +257,16 @@ def big_index_pair():
 def run(ctx, rep, model=True):
     n = 40 if ctx.quick else 240
     lay_pairs = [("mono", "mono"), ("mono", "sameperm"), ("perm", "same"), ("files", "scatter"), ("scatter", "files"),
-                 ("scatter", "same"), ("perm", "perm"), ("mono", "files")]
+                 ("scatter", "same"), ("perm", "perm"), ("mono", "files"), ("mixed", "mixed"), ("mixed", "mixedperm")]
     for i in range(n):
         p, q, kinds = pair_specs(ctx.rng, kinds=lay_pairs[i % len(lay_pairs)])
         if i % 3 == 1:
             p["subcycle"] = q["subcycle"] = True; p["step"] = q["step"] = 7       # a sub-cycling run: steps 7, 14, 28 per level
             rep.count("per-level-steps-differ")
+        if i % 4 == 2:
+            # names with a comma in them (a rate between two species, an isomer): string selections are split at blanks only
+            p["fields"][ctx.rng.randrange(len(p["fields"]))] = "rate(H2,O2)"
+            q["fields"][ctx.rng.randrange(len(q["fields"]))] = "Y(C4H6-1,3)"; rep.count("field-name-with-comma")
         forms = selection_forms(ctx.rng, dedup_names(p["fields"]), dedup_names(q["fields"]))
         for j, (v1, v2) in enumerate(forms):
             if ctx.quick and j not in (0, 1 + i % 7):
